@@ -5,6 +5,7 @@ import (
 	"fmt"
 	"net/http/httptest"
 	"path/filepath"
+	"strings"
 	"testing"
 
 	textwire "github.com/textwire/textwire/v2"
@@ -38,8 +39,10 @@ func init() {
 }
 
 func c16Many(c *harness.Check, cs manyCase) string {
-	src := func(k int) string { return fmt.Sprintf("<i id=%d>{{ %d * 2 }}|{{ name }}</i>", k, k) }
-	want := func(k int) string { return fmt.Sprintf("<i id=%d>%d|N</i>", k, k*2) }
+	// sources of a few dozen bytes up to several KiB (padding: plain text of k%6 * 700 bytes)
+	pad := func(k int) string { return strings.Repeat(fmt.Sprintf("<!-- %04d -->", k), (k%6)*70) }
+	src := func(k int) string { return fmt.Sprintf("<i id=%d>{{ %d * 2 }}|{{ name }}</i>", k, k) + pad(k) }
+	want := func(k int) string { return fmt.Sprintf("<i id=%d>%d|N</i>", k, k*2) + pad(k) }
 	tr := tree.Tree{"t/failing.tw": {Content: "x\n{{ nosuchname }}"}}
 	for k := 0; k < cs.N; k++ {
 		tr[fmt.Sprintf("t/p%d.tw", k)] = tree.Entry{Content: src(k)}
@@ -147,7 +150,7 @@ func c16Many(c *harness.Check, cs manyCase) string {
 
 func TestC16_ManySources(t *testing.T) {
 	c := harness.New(t, "C16", "many-sources",
-		"N distinct sources for N in {1, 2, 3, 7..9, 15..17, 31..33, 63..65, 100, 127..129, 255..257} (quick) plus {511..513, 1000, 1023..1025} (thorough), evaluated one after the other through EvaluateString, EvaluateFile, as pages of one loaded directory, or all three in turn; then all again in the same order and in reverse order; a failing Response (built-in error page, debug on) before, every 97 calls and after; in every other case N calls that fail before anything is evaluated (unknown names, data of an unsupported kind, the reserved key loop; String and Response) come first, and one more between any two calls. Every call must give the result of its own source (known in closed form) and the error page must stay the same. Exhaustive over N x entry point. Non-trivial: N >= 2. Distinct by construction.")
+		"N distinct sources (of a few dozen bytes up to 3.5 KiB) for N in {1, 2, 3, 7..9, 15..17, 31..33, 63..65, 100, 127..129, 255..257} (quick) plus {511..513, 1000, 1023..1025} (thorough), evaluated one after the other through EvaluateString, EvaluateFile, as pages of one loaded directory, or all three in turn; then all again in the same order and in reverse order; a failing Response (built-in error page, debug on) before, every 97 calls and after; in every other case N calls that fail before anything is evaluated (unknown names, data of an unsupported kind, the reserved key loop; String and Response) come first, and one more between any two calls. Every call must give the result of its own source (known in closed form) and the error page must stay the same. Exhaustive over N x entry point. Non-trivial: N >= 2. Distinct by construction.")
 	defer c.Finish()
 	var ns []int
 	ns = append(ns, 1, 2, 3, 100)
